@@ -2,9 +2,10 @@
 # Runs the repository's own test suite (guard off: no overlay, no build tags) without touching /repo:
 # a copy of go.mod/go.sum is used as -modfile so that `-mod=mod` cannot rewrite /repo/go.mod.
 export GOFLAGS=-mod=mod GOPROXY=off GOSUMDB=off GOTOOLCHAIN=local
+REPO=${VERIF_REPO:-/repo}
 T=$(mktemp -d /var/tmp/verif-baseline.XXXXXX)
-cp /repo/go.mod $T/go.mod; cp /repo/go.sum $T/go.sum
-cd /repo && go test -modfile=$T/go.mod -vet=off -count=1 -timeout 25m "$@" ./...
+cp $REPO/go.mod $T/go.mod; cp $REPO/go.sum $T/go.sum
+cd $REPO && go test -modfile=$T/go.mod -vet=off -count=1 -timeout 25m "$@" ./...
 rc=$?
 rm -rf $T
 exit $rc
